@@ -459,6 +459,7 @@ func cmdLang(args []string) {
 	deepAll := fs.Bool("deep", true, "record views / projections / re-decode for accepted strings")
 	nilrecv := fs.Bool("nilrecv", false, "decode every input through nil receivers as well (C12)")
 	long := fs.Int("long", 0, "number of long pathological inputs (up to 8 MiB, thousands of separators)")
+	nsteps := fs.Int("steps", 0, "number of inputs whose decodeOne call sequence is recorded through the hook")
 	fs.Parse(args)
 	var inputs []string
 	if *in != "" {
@@ -573,6 +574,46 @@ func cmdLang(args []string) {
 			recs[w].Add(evBody(ev), "Decode")
 		}
 	})
+	if *nsteps > 0 {
+		// per-token conformance with the implementation-shaped model (Decoder.tla): the sequence of
+		// decodeOne calls of the decoder's own level, observed through the build-tag hook
+		// (sequential: the hook is a package-level variable)
+		type se struct {
+			K    string   `json:"k"`
+			Fam  string   `json:"fam"`
+			Lvl  string   `json:"lvl"`
+			S    string   `json:"s"`
+			Toks []string `json:"toks"`
+		}
+		step := len(inputs) / *nsteps
+		if step < 1 {
+			step = 1
+		}
+		for i := 0; i < len(inputs); i += step {
+			if len(inputs[i]) > 300 {
+				continue
+			}
+			for _, lvl := range lvls {
+				site := siteNames[*fam+string(lvl)]
+				toks := []string{}
+				setHook(func(s string, recv any, arg string) {
+					if s == site {
+						toks = append(toks, asciiSafe(arg))
+					}
+				})
+				func() {
+					defer func() { recover() }()
+					if *fam == "v3" {
+						v3Decode(lvl, inputs[i])
+					} else {
+						v2Decode(lvl, inputs[i])
+					}
+				}()
+				setHook(nil)
+				recs[0].Add(evBody(se{"steps", *fam, string(lvl), asciiSafe(inputs[i]), toks}), "decodeOne hook")
+			}
+		}
+	}
 	if *nilrecv {
 		// the same inputs through typed nil receivers (sequentially: the switch is global)
 		useNilReceiver = true
